@@ -48,6 +48,11 @@ fn build(n: usize, edges: u64, variant: u64) -> (Vec<(String, String)>, Vec<Vec<
         if i == 0 && variant == 1 {
             incs.push_str("include \"nowhere.td\"\n");
         }
+        if i > 0 && variant == 1 {
+            // every other file starts its includes with a missing file whose statement has the same
+            // extent as the root's first include statement (f9 never exists: at most 8 files)
+            incs = format!("include \"f9.td\"\n{incs}");
+        }
         if i == 0 && variant == 5 && !incs.is_empty() {
             // the root's includes are nested in a block; which kind depends on the graph
             match edges % 4 {
@@ -163,9 +168,13 @@ fn check(n: usize, edges: u64, variant: u64) -> Verdict {
         }
         // missing include: a diagnostic on that statement, and no other diagnostics anywhere
         let ds = diags.get(&fid).cloned().unwrap_or_default();
-        let missing: Vec<usize> = find_all(text, "include \"nowhere.td\"");
-        for p in &missing {
-            let z = p + "include \"nowhere.td\"".len();
+        let missing: Vec<(usize, usize)> = find_all(text, "include \"nowhere.td\"")
+            .into_iter()
+            .map(|p| (p, "include \"nowhere.td\"".len()))
+            .chain(find_all(text, "include \"f9.td\"").into_iter().map(|p| (p, "include \"f9.td\"".len())))
+            .collect();
+        for (p, len) in &missing {
+            let z = p + len;
             if !ds.iter().any(|d| {
                 let (s, e) = r2(d.location.range);
                 s >= *p && e <= z + 1 && s < z
@@ -175,7 +184,7 @@ fn check(n: usize, edges: u64, variant: u64) -> Verdict {
         }
         let others: Vec<String> = ds
             .iter()
-            .filter(|d| !missing.iter().any(|p| r2(d.location.range).0 >= *p && r2(d.location.range).0 < p + 20))
+            .filter(|d| !missing.iter().any(|(p, len)| r2(d.location.range).0 >= *p && r2(d.location.range).0 < p + len))
             .map(|d| format!("{:?} {}", r2(d.location.range), d.message))
             .collect();
         if !others.is_empty() {
@@ -250,7 +259,7 @@ impl Property for C16 {
         "C16"
     }
     fn rule(&self) -> String {
-        "exhaustive: every edge set (self-loops included) over <=3 files (thorough: <=4, all 65536) x 7 variants {plain, +missing include, last file only in INCLUDE_DIR, last file in both directory and INCLUDE_DIR, every include written twice, root's includes nested in a block (let / foreach / if / a foreach inside a multiclass, by graph), two directories that each hold their own common.td included everywhere by the same text}; quick adds 3000 sampled 4-file graphs; thorough adds random graphs over 5..8 files. Each file = class K<i>; its include statements; one def per included file using that file's class. Oracle: set_root_file + index terminate (traversal budget), keys(diagnostics()) = reference reachable set, document links = one per resolvable include statement on its string literal with the reference target, a diagnostic on each unresolvable include and none elsewhere, each declaration once in its file's outline, references(K<j>) = its uses in every reachable includer. distinct = digest; non-trivial = the graph has a cycle or a diamond, or the variant is not plain".into()
+        "exhaustive: every edge set (self-loops included) over <=3 files (thorough: <=4, all 65536) x 7 variants {plain, +missing includes (at the end of the root; first in every other file, with the same extent as the root's first include), last file only in INCLUDE_DIR, last file in both directory and INCLUDE_DIR, every include written twice, root's includes nested in a block (let / foreach / if / a foreach inside a multiclass, by graph), two directories that each hold their own common.td included everywhere by the same text}; quick adds 3000 sampled 4-file graphs; thorough adds random graphs over 5..8 files. Each file = class K<i>; its include statements; one def per included file using that file's class. Oracle: set_root_file + index terminate (traversal budget), keys(diagnostics()) = reference reachable set, document links = one per resolvable include statement on its string literal with the reference target, a diagnostic on each unresolvable include and none elsewhere, each declaration once in its file's outline, references(K<j>) = its uses in every reachable includer. distinct = digest; non-trivial = the graph has a cycle or a diamond, or the variant is not plain".into()
     }
     fn assumptions(&self) -> Vec<String> {
         vec!["search order from the documentation: directory of the including file, then $INCLUDE_DIR (set once per process to a virtual directory)".into()]
